@@ -170,7 +170,12 @@ Proof.
   assert (HX : C * U < 2 ^ 47 * U) by (apply Z.mul_lt_mono_pos_r; lia).
   assert (0 <= C * U) by (apply Z.mul_nonneg_nonneg; lia).
   set (X := C * U) in *. replace ((C - 1) * U) with (X - U) by (unfold X; ring).
-  clearbody X. cbn in H, HX. lia.
+  clearbody X. set (u := U) in *. clearbody u.
+  change (2 ^ 47) with 140737488355328 in *.
+  change ((2 ^ 48 - 1) * ((2 ^ 52 - 1) * (2 ^ 52 - 1)))
+    with 5708990770823816706522339769678042279104741375 in H.
+  change (2 ^ 48 * (2 ^ 52 * 2 ^ 52)) with 5708990770823839524233143877797980545530986496 in H.
+  lia.
 Qed.
 
 (* ---- the partial theorem ---- *)
@@ -295,12 +300,39 @@ Proof.
   split; vm_compute; reflexivity.
 Qed.
 
-(* non-vacuity of the partial theorem: a large-ish price outside the known class *)
+(* non-vacuity of the partial theorem: a large price outside the known class, deepest table
+   entry; estimate and compounded price differ only in the last digits *)
 Example bound_partial_nonvacuous :
-  ~ KnownClass 1000000000000 24 (su32 (24 - 0)) /\ uses_libm (su32 (24 - 0)) 24 = false /\
-  cumulative_percentage_change 1000000000000 0 24 24 FNaN = Some 174630639296268 /\
-  compound 24 1000000000000 24 = 174630639296115.
+  ~ KnownClass 500000000000 24 (su32 (24 - 0)) /\ uses_libm (su32 (24 - 0)) 24 = false /\
+  exists r c, cumulative_percentage_change 500000000000 0 24 24 FNaN = Some r /\
+              compound 24 500000000000 24 = c /\ (c <=? r) = true /\ (87000000000000 <? c) = true.
 Proof.
   split; [intros H; apply known_classb_iff in H; vm_compute in H; discriminate|].
-  repeat split; vm_compute; reflexivity.
+  split; [vm_compute; reflexivity|].
+  eexists; eexists. split; [vm_compute; reflexivity|]. split; [vm_compute; reflexivity|].
+  split; vm_compute; reflexivity.
+Qed.
+
+(* ---- meaning of the checker evaluated on the implementation's results ---- *)
+
+Definition EstimatesSpec (price pct : Z) (rs : list (Z * Z)) : Prop :=
+  (forall br, In br rs -> 0 <= snd br) /\
+  (forall x y, In x rs -> In y rs -> fst x <= fst y -> snd x <= snd y) /\
+  (forall br, In br rs -> fst br <= COMPOUND_LIMIT ->
+              compound (Z.to_nat (fst br)) price pct <= snd br).
+
+Lemma estimates_okb_iff price pct rs :
+  estimates_okb price pct rs = true <-> EstimatesSpec price pct rs.
+Proof.
+  unfold estimates_okb, EstimatesSpec, total_okb, monotone_okb, bound_okb.
+  rewrite !Bool.andb_true_iff, !forallb_forall. split.
+  - intros ((H1 & H2) & H3). repeat split.
+    + intros br Hi. specialize (H1 br Hi). lia.
+    + intros x y Hx Hy Hle. specialize (H2 x Hx). rewrite forallb_forall in H2.
+      specialize (H2 y Hy). lia.
+    + intros br Hi Hl. specialize (H3 br Hi). lia.
+  - intros (H1 & H2 & H3). repeat split.
+    + intros br Hi. specialize (H1 br Hi). lia.
+    + intros x Hx. rewrite forallb_forall. intros y Hy. specialize (H2 x y Hx Hy). lia.
+    + intros br Hi. specialize (H3 br Hi). lia.
 Qed.
